@@ -93,6 +93,12 @@ pub struct CancelAfter<F> {
     polls: u32,
 }
 
+impl<F: Future> CancelAfter<F> {
+    pub fn new(f: F, after: u32) -> Self {
+        CancelAfter { inner: Some(Box::pin(f)), after, polls: 0 }
+    }
+}
+
 impl<F: Future> Future for CancelAfter<F> {
     type Output = Option<F::Output>;
     fn poll(mut self: Pin<&mut Self>, cx: &mut Context<'_>) -> Poll<Self::Output> {
@@ -133,14 +139,15 @@ pub struct WorldResult {
 
 fn gen_request(rng: &mut StdRng, id: u64, cfg: &WorldCfg) -> (ReqSpec, usize, bool) {
     let si = rng.gen_range(0..cfg.servers.len());
-    let (proto, _) = cfg.servers[si];
+    let (proto, net) = cfg.servers[si];
+    let tiny = matches!(net, Net::Duplex(b) if b < 64);
     // upgrades need an HTTP/1 connection: only origins that never see HTTP/2 traffic (a pooled HTTP/2
     // connection would carry the request, and the HTTP/2 checks strip the Upgrade header by design)
     let upgrade = proto == Proto::H1 && rng.gen_range(0..100) < cfg.upgrade_pct;
     let h2 = match proto {
         Proto::H1 => false,
         Proto::H2 => true,
-        Proto::Auto => !upgrade && rng.gen_bool(0.5),
+        Proto::Auto => !upgrade && !tiny && rng.gen_bool(0.5),
     };
     let methods = [http::Method::GET, http::Method::POST, http::Method::PUT, http::Method::HEAD, http::Method::DELETE, http::Method::OPTIONS, http::Method::PATCH];
     let method = if upgrade { http::Method::GET } else { methods[rng.gen_range(0..methods.len())].clone() };
@@ -435,7 +442,8 @@ pub fn gen_worlds(seed: u64, n: usize, thorough: bool) -> Vec<WorldCfg> {
                 };
                 // hyper's HTTP/2 over a tokio duplex pipe smaller than ~32 bytes never completes its handshake (probed
                 // with plain hyper and an independent bridge: not hyperdriver's doing), so tiny pipes carry HTTP/1 only
-                let proto = if matches!(net, Net::Duplex(b) if b < 64) { Proto::H1 } else { proto };
+                // (auto-detecting servers on tiny pipes get HTTP/1.1 requests only, see gen_request)
+                let proto = if matches!(net, Net::Duplex(b) if b < 64) && proto == Proto::H2 { Proto::H1 } else { proto };
                 (proto, net)
             })
             .collect::<Vec<_>>();
